@@ -20,6 +20,53 @@ def main():
             cid = "%d.%d" % (li, ci)
             cases.append((cid, case_script(cid, lp, cfg)))
             meta[cid] = (lp, cfg)
+    # ---- edit histories: the certificate must hold against the LP *as currently defined through the API* ----
+    for li, lp in enumerate(lps[: (300 if ck.thorough() else 45)]):
+        n, m = len(lp["cols"]), len(lp["rows"])
+        if n == 0 or m == 0:
+            continue
+        for hi in range(3 if ck.thorough() else 2):
+            cid = "h%d.%d" % (li, hi)
+            cfg = dict(entry=ck.rng.choice(ENTRIES), warm="none")
+            lines = ["CASE %s" % cid, lp_block(lp)]
+            if ck.rng.random() < 0.7:
+                lines += ["SOLVE %s" % ck.rng.choice(ENTRIES)]
+            edits = []
+            lo_ = [c[2] for c in lp["cols"]]
+            up_ = [c[3] for c in lp["cols"]]
+            for _ in range(ck.rng.randint(1, 3)):
+                i, j = ck.rng.randrange(m), ck.rng.randrange(n)
+                edits.append(ck.rng.choice([
+                    "CHG sense %d %s" % (i, ck.rng.choice("LGE")),
+                    "CHG coef %d %d %s" % (i, j, qs(rand_q(ck.rng, "small"))),
+                    "CHG rhs %d %s" % (i, qs(rand_q(ck.rng, "small"))),
+                    "CHG obj %d %s" % (j, qs(rand_q(ck.rng, "small"))),
+                    "BOUND",
+                    "CHG objsense %s" % ck.rng.choice(["MIN", "MAX"]),
+                    "CHG delrow %d" % i if m > 1 else "CHG rhs %d 1" % i,
+                    "CHG delcol %d" % j if n > 1 else "CHG obj %d 1" % j,
+                ]))
+                if edits[-1] == "BOUND":
+                    # keep the LP well formed: lower <= upper
+                    v = F(ck.rng.randint(-3, 6))
+                    if ck.rng.random() < 0.5:
+                        if up_[j] != INF and v > F(up_[j]):
+                            v = F(up_[j])
+                        lo_[j] = v
+                        edits[-1] = "CHG bound %d L %s" % (j, qs(v))
+                    else:
+                        if lo_[j] != NINF and v < F(lo_[j]):
+                            v = F(lo_[j])
+                        up_[j] = v
+                        edits[-1] = "CHG bound %d U %s" % (j, qs(v))
+                if edits[-1].startswith("CHG delrow"):
+                    m -= 1
+                if edits[-1].startswith("CHG delcol"):
+                    n -= 1
+                    del lo_[j], up_[j]
+            lines += edits + ["SOLVE " + cfg["entry"], "ACCESS", "GETBASIS", "DUMP"]
+            cases.append((cid, "\n".join(lines) + "\n"))
+            meta[cid] = (dict(lp, name=lp["name"] + "+edits", edits=edits), cfg)
     M, outs, crashes = run_cases("h_solve", cases, per_case_timeout=40)
     # a crash is not a C01 violation (C01 speaks about solves that succeed); crashes are C17's business and only counted here
     ck.cov["crashes_seen"] = [dict(case=cid, rc=rc) for cid, rc, err in crashes]
@@ -102,9 +149,9 @@ def main():
             if r is None or r[:n] != co.acc["rc"][1]:
                 ck.violation("rc_%s.txt" % cid, dict(cases)[cid], "reduced costs returned differ from c - A^T pi", match=dict(kind="rc"))
     # ---- correspondence: model opt_test vs QSexact_optimal_test -------------------------------
-    solved = [(cid, CaseOut(outs[cid])) for cid in outs if cid.endswith(".0")]
+    solved = [(cid, CaseOut(outs[cid])) for cid in outs if cid.endswith(".0") and not cid.startswith("h")]
     solved = [(cid, co) for cid, co in solved if co.lp_ok and co.ilp]
-    ccases, cq, cmeta = [], ["M " + M], {}
+    ccases, cq, cmeta, cargs = [], ["M " + M], {}, {}
     for cid, co in solved:
         lp, _ = meta[cid]
         kind, rv, st = co.last()
@@ -118,9 +165,33 @@ def main():
         for vi, (label, cs, rs, xs, ys) in enumerate(vs):
             tid = "t%s.%d" % (cid, vi)
             ccases.append((tid, opttest_script(tid, lp, cs, rs, xs, ys)))
-            cq.append(opttest_query(tid, co, cs, rs, xs, ys))
+            cargs[tid] = (cs, rs, xs, ys)
             cmeta[tid] = (label, lp)
+        # probes aimed at single conditions of the test: all-logical basis, duals zero, so that only the
+        # bound tests of the logicals (primal probe) resp. the complementary slackness products and the
+        # objective equality (dual probe) decide
+        if ns and m:
+            for pi_ in range(4 if ck.thorough() else 2):
+                def st_of(j):
+                    lo, up = lp["cols"][j][2], lp["cols"][j][3]
+                    opts = ([] if lo == NINF else ["0"]) + ([] if up == INF else ["2"])
+                    return ck.rng.choice(opts) if opts else "3"
+                cs_ = "".join(st_of(j) for j in range(ns))
+                rs_ = "1" * m
+                xs = [str(ck.rng.randint(-2, 3)) for _ in range(nc)]
+                ys = ["0"] * m
+                tid = "t%s.p%d" % (cid, pi_)
+                pre = "".join("CHG obj %d 0\n" % j for j in range(ns)) if pi_ % 2 == 0 else ""
+                scr = "CASE %s\n%s\n%sOPTTEST %s %s %s %s\nDUMP\n" % (tid, lp_block(lp), pre, cs_, rs_, " ".join(xs), " ".join(ys))
+                ccases.append((tid, scr))
+                cargs[tid] = (cs_, rs_, xs, ys)
+                cmeta[tid] = ("probe-primal" if pre else "probe-dual", lp)
     _, couts, ccr = run_cases("h_solve", ccases, per_case_timeout=20)
+    for tid, _scr in ccases:
+        if tid in couts:
+            co_t = CaseOut(couts[tid])
+            if co_t.ilp:
+                cq.append(opttest_query(tid, co_t, *cargs[tid]))
     cans = run_model("drv_solve", "\n".join(cq) + "\n")
     ncorr = nacc = 0
     labels = {}
@@ -137,8 +208,10 @@ def main():
         agree = (v == 1) == model_some
         if agree and model_some:
             nacc += 1
-            parts = [p_.split() for p_ in " ".join(r[1:]).split("|")]
-            exp = [acc.get("objval", (1, []))[1], acc.get("x", (1, []))[1], acc.get("pi", (1, []))[1], acc.get("slack", (1, []))[1], acc.get("rc", (1, []))[1]]
+            Mq = F(M)
+            nrm = lambda l: [Mq if t_ == "inf" else (-Mq if t_ == "-inf" else F(t_)) for t_ in l]
+            parts = [nrm(p_.split()) for p_ in " ".join(r[1:]).split("|")]
+            exp = [nrm(acc.get("objval", (1, []))[1]), nrm(acc.get("x", (1, []))[1]), nrm(acc.get("pi", (1, []))[1]), nrm(acc.get("slack", (1, []))[1]), nrm(acc.get("rc", (1, []))[1])]
             agree = parts == exp
         ck.count(("corr", tid, repr(cmeta[tid][1]["rows"])), nontrivial=True)
         if not agree:
@@ -148,7 +221,7 @@ def main():
                          "correspondence OptTest.opt_test vs QSexact_optimal_test broke (variant %s): C verdict %s, model %s" % (cmeta[tid][0], v, r[0]),
                          no_input=not (v == 1 and not model_some), match=dict(kind="corr-opttest"))
     ck.cov["traces_validated_against_impl"] = ncorr
-    ck.cov["corr_opttest"] = dict(cases=ncorr, accepted_by_both=nacc, variants=labels, harness_crashes=len(ccr))
+    ck.cov["corr_opttest"] = dict(cases=ncorr, accepted_by_both=nacc, variants=labels, harness_crashes=len(ccr), crash_samples=[(c_, r_, e_[-200:]) for c_, r_, e_ in ccr[:3]])
     # proof obligations
     if not pr["ok"]:
         ck.violation("proof.txt", pr["log"], "proof obligation(s) of Properties_C01.v no longer check: %s" % pr["failed"],
